@@ -8,6 +8,7 @@ CONSTANTS
   SingleCounts = {}
   HistSites = {}
   RotStep = 1
+  Hist16 = FALSE
   Emit = FALSE
   Strict = TRUE
 POSTCONDITION AllConsumed
